@@ -104,6 +104,11 @@ func c15Vanilla[P curves.Point[P, F, S], F algebra.FiniteFieldElement[F], S alge
 	if neg {
 		negs = "1"
 	}
+	if le {
+		negs += ".1." + hname
+	} else {
+		negs += ".0." + hname
+	}
 	cfg := fmt.Sprintf("%s.%s.neg%v.le%v.par%v", cname, hname, neg, le, parity)
 	n := fieldOrder(sf)
 	keys := c15SchnorrKeys(r, sf)
@@ -235,8 +240,11 @@ func c15Bip340Challenge(R, P *k256.Point, m []byte) string {
 	h := sha256.New()
 	h.Write(tag[:])
 	h.Write(tag[:])
-	rx, _ := R.AffineX()
-	px, _ := P.AffineX()
+	rx, err1 := R.AffineX()
+	px, err2 := P.AffineX()
+	if err1 != nil || err2 != nil {
+		return "0" // identity: no challenge exists; every verifier rejects before using it
+	}
 	h.Write(rx.Bytes())
 	h.Write(px.Bytes())
 	h.Write(m)
@@ -525,7 +533,7 @@ func c15Mina(c *Ctx, r *Rng) {
 			continue
 		}
 		mhex := hexBytes([]byte(text))
-		c.Emit(fmt.Sprintf("schnorr.sign pallas 0 %s %s %s", scalarHex(skv), e0, mhex), res)
+		c.Emit(fmt.Sprintf("schnorr.sign pallas 0.0.poseidon %s %s %s", scalarHex(skv), e0, mhex), res)
 		if y, err := sig.R.AffineY(); err != nil || y.IsOdd() {
 			c.Violation(fmt.Sprintf("mina: signer returned R with odd y: %s", pointStr(sig.R)))
 		}
@@ -538,7 +546,7 @@ func c15Mina(c *Ctx, r *Rng) {
 				p := &mina.PublicKey{PublicKeyTrait: signatures.PublicKeyTrait[*pasta.PallasPoint, *pasta.PallasScalar]{V: Pk}}
 				return c15Verdict(verifier.Verify(&mina.Signature{E: nil, R: R, S: s}, p, m))
 			})
-			lhs := fmt.Sprintf("schnorr.verify pallas 0 %s %s %s %s %s mina-%s", pointStr(Pk), pointStr(R), scalarHex(s), e, mh, tag)
+			lhs := fmt.Sprintf("schnorr.verify pallas 0.0.poseidon %s %s %s %s %s mina-%s", pointStr(Pk), pointStr(R), scalarHex(s), e, mh, tag)
 			c.Emit(lhs, out)
 			c.Count("mina.verify." + tag + "." + out)
 			if out != expect {
@@ -557,7 +565,7 @@ func c15Mina(c *Ctx, r *Rng) {
 			try(fmt.Sprintf("alt-R%d", i), pkv, R2, sig.S, msg, mhex, "reject")
 		}
 		try("alt-m0", pkv, sig.R, sig.S, mkMsg(text+"x", false), hexBytes([]byte(text+"x")), "reject")
-		try("alt-m1", pkv, sig.R, sig.S, mkMsg(text, true), mhex+"01", "reject")
+		try("alt-m1", pkv, sig.R, sig.S, mkMsg(text, true), hexBytes(append([]byte(text), 1)), "reject")
 		for i, p2 := range []*pasta.PallasPoint{pkv.Add(G), pkv.Neg(), pkv.Double(), G.ScalarMul(rnd), cPallas.OpIdentity()} {
 			try(fmt.Sprintf("alt-pk%d", i), p2, sig.R, sig.S, msg, mhex, "reject")
 		}
